@@ -259,7 +259,7 @@ Lemma mac_writes_from_bound : forall data i,
 Proof.
   induction data as [|b data IH]; intros i; cbn [mac_writes_from]; [constructor|].
   apply Forall_app. split.
-  - unfold mac_writes_at. repeat constructor; cbn [fst length]; lia.
+  - unfold mac_writes_at. apply Forall_forall. intros [j v] Hj. apply combine_seq_bound in Hj. cbn [fst length]. lia.
   - eapply Forall_impl; [|apply IH]. cbn beta. intros w Hw. cbn [length]. lia.
 Qed.
 
@@ -269,6 +269,272 @@ Proof.
   intros H. unfold in_bounds, mac_writes, NI_MAXHOST. apply Forall_app. split.
   - eapply Forall_impl; [|apply mac_writes_from_bound]. cbn beta. intros w Hw. lia.
   - constructor; [cbn [fst]; lia|constructor].
+Qed.
+
+(* ---------------------------------------------------------------- content of the buffers *)
+Lemma firstn_len_app {A} (f x : list A) : firstn (length f) (f ++ x) = f.
+Proof. induction f as [|a f IH]; cbn [length firstn app]; [destruct x; reflexivity|now rewrite IH]. Qed.
+Lemma skipn_len_app {A} (f x : list A) : skipn (length f) (f ++ x) = x.
+Proof. induction f as [|a f IH]; cbn [length skipn app]; auto. Qed.
+
+Lemma c_str_app_nul s rest : contains 0 s = false -> c_str (s ++ 0 :: rest) = Some s.
+Proof.
+  induction s as [|c s IH]; intros H; [reflexivity|].
+  rewrite contains_cons in H. apply orb_false_iff in H as [Hc Hs].
+  cbn [app c_str]. rewrite Z.eqb_sym, Hc. now rewrite IH.
+Qed.
+
+Lemma upd_firstn_skipn : forall buf i v, (i < length buf)%nat ->
+  upd buf i v = firstn i buf ++ v :: skipn (S i) buf.
+Proof.
+  induction buf as [|c buf IH]; intros [|i] v H; cbn [length] in H; try lia; [reflexivity|].
+  cbn [upd firstn skipn app]. f_equal. apply IH. lia.
+Qed.
+
+Lemma skipn_len_plus {A} (a x : list A) j : skipn (length a + j) (a ++ x) = skipn j x.
+Proof. induction a as [|c a IH]; [reflexivity|]. cbn [length Nat.add skipn app]. exact IH. Qed.
+
+Lemma firstn_len_plus {A} (a x : list A) j : firstn (length a + j) (a ++ x) = a ++ firstn j x.
+Proof. induction a as [|c a IH]; [reflexivity|]. cbn [length Nat.add firstn app]. now rewrite IH. Qed.
+
+Lemma skipn_skipn' {A} : forall b a (l : list A), skipn a (skipn b l) = skipn (b + a) l.
+Proof.
+  induction b as [|b IH]; intros a l; [reflexivity|]. destruct l as [|c l]; cbn [skipn Nat.add].
+  - now destruct a.
+  - apply IH.
+Qed.
+
+(* writing the values [vals] at the consecutive indices s, s+1, ... replaces exactly that block *)
+Lemma block_write : forall vals s buf, (s + length vals <= length buf)%nat ->
+  apply_writes buf (combine (seq s (length vals)) vals) = firstn s buf ++ vals ++ skipn (s + length vals) buf.
+Proof.
+  induction vals as [|v vals IH]; intros s buf H.
+  - cbn [length seq combine apply_writes fold_left app]. rewrite Nat.add_0_r. now rewrite firstn_skipn.
+  - cbn [length] in H. cbn [length seq combine]. unfold apply_writes. cbn [fold_left fst snd].
+    fold (apply_writes (upd buf s v) (combine (seq (S s) (length vals)) vals)).
+    rewrite IH by (rewrite upd_length; lia).
+    rewrite upd_firstn_skipn by lia. set (tl := skipn (S s) buf).
+    assert (Hl : length (firstn s buf) = s) by (apply firstn_length_le; lia).
+    replace (S s) with (length (firstn s buf) + 1)%nat at 1 by lia.
+    rewrite firstn_len_plus. cbn [firstn].
+    replace (S s + length vals)%nat with (length (firstn s buf) + S (length vals))%nat at 1 by lia.
+    rewrite skipn_len_plus. cbn [skipn]. subst tl. rewrite skipn_skipn'.
+    rewrite <- app_assoc. cbn [app]. do 4 f_equal. lia.
+Qed.
+
+Lemma upd_app_len : forall a x b v, upd (a ++ x :: b) (length a) v = a ++ v :: b.
+Proof. induction a as [|c a IH]; intros x b v; [reflexivity|]. cbn [app length upd]. now rewrite IH. Qed.
+
+Lemma firstn_repeat {A} (x : A) : forall j k, firstn j (repeat x k) = repeat x (Nat.min j k).
+Proof. induction j as [|j IH]; intros [|k]; cbn [firstn repeat Nat.min]; auto. now rewrite IH. Qed.
+
+Lemma contains_firstn b : forall k l, contains b l = false -> contains b (firstn k l) = false.
+Proof.
+  induction k as [|k IH]; intros [|c l] H; cbn [firstn]; auto.
+  rewrite contains_cons in *. apply orb_false_iff in H as [H1 H2]. now rewrite H1, IH.
+Qed.
+
+Lemma contains_cut_nul l : contains 0 (cut_nul l) = false.
+Proof.
+  induction l as [|c l IH]; [reflexivity|]. cbn [cut_nul]. destruct (Z.eqb_spec c 0); [reflexivity|].
+  rewrite contains_cons, IH. destruct (Z.eqb_spec 0 c); [lia|reflexivity].
+Qed.
+
+Lemma cut_nul_id l : contains 0 l = false -> cut_nul l = l.
+Proof.
+  induction l as [|c l IH]; intros H; [reflexivity|]. rewrite contains_cons in H.
+  apply orb_false_iff in H as [H1 H2]. cbn [cut_nul]. rewrite Z.eqb_sym, H1. now rewrite IH.
+Qed.
+
+(* the destination after PSUTIL_STRNCPY(dst, src, n): the first min(len, n-1) bytes of the C string src,
+   then NULs up to n -- whatever dst held before *)
+Lemma psutil_strncpy_content src n ws junk :
+  psutil_strncpy src n = Some ws -> length junk = n ->
+  apply_writes junk ws = pad n (firstn (n - 1) (cut_nul src)).
+Proof.
+  destruct n as [|k]; [discriminate|]. intros [= <-] Hj.
+  unfold apply_writes. rewrite fold_left_app. cbn [fold_left fst snd].
+  fold (apply_writes junk (strncpy_writes src k)). unfold strncpy_writes.
+  set (vals := firstn k (cut_nul src ++ repeat 0 k)).
+  assert (Hv : length vals = k).
+  { unfold vals. rewrite firstn_length, app_length, repeat_length. lia. }
+  replace (combine (seq 0 k) vals) with (combine (seq 0 (length vals)) vals) by (now rewrite Hv).
+  match goal with |- context [fold_left ?f ?ws junk] => change (fold_left f ws junk) with (apply_writes junk ws) end.
+  rewrite block_write by (cbn [Nat.add]; lia). cbn [firstn app Nat.add].
+  assert (Hs : exists x, skipn (length vals) junk = [x]).
+  { assert (Hl : length (skipn (length vals) junk) = 1%nat) by (rewrite skipn_length; lia).
+    destruct (skipn (length vals) junk) as [|x [|y r]]; cbn [length] in Hl; try lia. eauto. }
+  destruct Hs as [x ->]. replace (upd (vals ++ [x]) k 0) with (upd (vals ++ [x]) (length vals) 0) by (now rewrite Hv).
+  rewrite upd_app_len.
+  unfold pad. replace (S k - 1)%nat with k by lia. unfold vals.
+  rewrite firstn_app, firstn_repeat. rewrite <- app_assoc. f_equal.
+  rewrite firstn_length.
+  replace [0] with (repeat 0 1) by reflexivity. rewrite <- repeat_app. f_equal. lia.
+Qed.
+
+(* ... so the string the kernel sees is the source cut at n-1 bytes *)
+Lemma psutil_strncpy_cstr src n ws junk :
+  psutil_strncpy src n = Some ws -> length junk = n ->
+  c_str (apply_writes junk ws) = Some (firstn (n - 1) (cut_nul src)).
+Proof.
+  intros Hw Hj. rewrite (psutil_strncpy_content src n ws junk Hw Hj). unfold pad.
+  destruct n as [|k]; [discriminate|].
+  assert (Hl : (length (firstn (S k - 1) (cut_nul src)) <= k)%nat) by (rewrite firstn_length; lia).
+  replace (S k - length (firstn (S k - 1) (cut_nul src)))%nat
+    with (S (k - length (firstn (S k - 1) (cut_nul src)))) by lia.
+  cbn [repeat]. apply c_str_app_nul. apply contains_firstn, contains_cut_nul.
+Qed.
+
+Lemma ifr_name_exact junk name : length junk = IFNAMSIZ -> contains 0 name = false ->
+  ifr_name junk name = Some (firstn 15 name).
+Proof.
+  intros Hj Hn. unfold ifr_name.
+  destruct (psutil_strncpy_defined name IFNAMSIZ) as [ws Hws]; [unfold IFNAMSIZ; lia|].
+  rewrite Hws, (psutil_strncpy_cstr name IFNAMSIZ ws junk Hws Hj). now rewrite cut_nul_id.
+Qed.
+
+(* ---------------------------------------------------------------- content of the MAC text *)
+Definition hexb (b : Z) : bytes := [hex_digit ((b mod 256) / 16); hex_digit ((b mod 256) mod 16)].
+Definition mac_body (data : bytes) : bytes := flat_map (fun b => hexb b ++ [58]) data.
+
+Lemma mac_body_cons b data : mac_body (b :: data) = hexb b ++ 58 :: mac_body data.
+Proof. unfold mac_body. cbn [flat_map]. now rewrite <- app_assoc. Qed.
+
+Lemma mac_body_length data : length (mac_body data) = (3 * length data)%nat.
+Proof. induction data as [|b data IH]; [reflexivity|]. rewrite mac_body_cons. cbn [hexb app length]. rewrite IH. lia. Qed.
+
+Lemma apply_writes_app buf w1 w2 : apply_writes buf (w1 ++ w2) = apply_writes (apply_writes buf w1) w2.
+Proof. unfold apply_writes. apply fold_left_app. Qed.
+
+Lemma mac_from_apply : forall rest b i P R,
+  length P = (3 * i)%nat -> (3 * S (length rest) + 1 <= length R)%nat ->
+  apply_writes (P ++ R) (mac_writes_from i (b :: rest))
+  = P ++ mac_body (b :: rest) ++ 0 :: skipn (3 * S (length rest) + 1) R.
+Proof.
+  induction rest as [|b' rest IH]; intros b i P R HP HR.
+  - cbn [mac_writes_from]. rewrite app_nil_r. unfold mac_writes_at.
+    pose proof (block_write [hex_digit ((b mod 256) / 16); hex_digit ((b mod 256) mod 16); 58; 0] (3 * i) (P ++ R)) as Hb.
+    cbn [length] in Hb. rewrite Hb by (rewrite app_length; cbn [length] in HR; lia). clear Hb.
+    rewrite <- HP, firstn_len_app, skipn_len_plus. rewrite mac_body_cons. cbn [hexb mac_body flat_map app length].
+    reflexivity.
+  - change (mac_writes_from i (b :: b' :: rest)) with (mac_writes_at i b ++ mac_writes_from (S i) (b' :: rest)).
+    rewrite apply_writes_app. unfold mac_writes_at at 1.
+    pose proof (block_write [hex_digit ((b mod 256) / 16); hex_digit ((b mod 256) mod 16); 58; 0] (3 * i) (P ++ R)) as Hb.
+    cbn [length] in Hb. rewrite Hb by (rewrite app_length; cbn [length] in HR; lia). clear Hb.
+    rewrite <- HP, firstn_len_app, skipn_len_plus.
+    change (P ++ [hex_digit ((b mod 256) / 16); hex_digit ((b mod 256) mod 16); 58; 0] ++ skipn 4 R)
+      with (P ++ ([hex_digit ((b mod 256) / 16); hex_digit ((b mod 256) mod 16); 58] ++ 0 :: skipn 4 R)).
+    rewrite app_assoc. cbn [length] in HR.
+    rewrite IH.
+    + rewrite <- app_assoc. f_equal. rewrite (mac_body_cons b). cbn [hexb app]. do 3 f_equal.
+      f_equal. f_equal. cbn [length].
+      replace (3 * S (length rest) + 1)%nat with (S (3 * S (length rest))) by lia.
+      change (skipn (S (3 * S (length rest))) (0 :: skipn 4 R)) with (skipn (3 * S (length rest)) (skipn 4 R)).
+      rewrite skipn_skipn'. f_equal. lia.
+    + rewrite app_length. cbn [length]. lia.
+    + cbn [length]. rewrite skipn_length. lia.
+Qed.
+
+Lemma mac_body_join : forall rest b, mac_body (b :: rest) = join [58] (map hexb (b :: rest)) ++ [58].
+Proof.
+  induction rest as [|b' rest IH]; intros b.
+  - rewrite mac_body_cons. cbn [mac_body flat_map map join]. reflexivity.
+  - rewrite mac_body_cons, IH. cbn [map join]. rewrite <- !app_assoc. reflexivity.
+Qed.
+
+Lemma hex_digit_pos d : 0 <= d -> 48 <= hex_digit d /\ hex_digit d <> 58.
+Proof. intros H. unfold hex_digit. destruct (Z.ltb_spec d 10); lia. Qed.
+
+Lemma hexb_clean b c : In c (hexb b) -> 48 <= c /\ c <> 58.
+Proof.
+  assert (0 <= b mod 256 < 256) by (apply Z.mod_pos_bound; lia).
+  unfold hexb. intros [<-|[<-|[]]]; apply hex_digit_pos.
+  - apply Z.div_pos; lia.
+  - apply Z.mod_pos_bound; lia.
+Qed.
+
+Lemma mac_body_no_nul data : contains 0 (mac_body data) = false.
+Proof.
+  induction data as [|b data IH]; [reflexivity|]. rewrite mac_body_cons, contains_app, contains_cons, IH.
+  assert (H1 := hexb_clean b). unfold hexb in *. cbn [contains existsb].
+  destruct (Z.eqb_spec 0 (hex_digit ((b mod 256) / 16))) as [E|_];
+    [specialize (H1 _ (or_introl eq_refl)); lia|].
+  destruct (Z.eqb_spec 0 (hex_digit ((b mod 256) mod 16))) as [E|_];
+    [specialize (H1 _ (or_intror (or_introl eq_refl))); lia|]. reflexivity.
+Qed.
+
+Lemma map_hexb_wf data : wf_bytes data = true -> map hexb data = map hex2 data.
+Proof.
+  intros H. apply map_ext_in. intros b Hb. unfold wf_bytes in H. rewrite forallb_forall in H.
+  specialize (H b Hb). unfold wf_byte in H. apply andb_true_iff in H as [H1 H2].
+  apply Z.leb_le in H1. apply Z.ltb_lt in H2. unfold hexb, hex2. now rewrite Z.mod_small by lia.
+Qed.
+
+(* the text built in buf[NI_MAXHOST] is the lower-case hex pairs joined by ':' -- whatever the buffer held *)
+Lemma mac_string_exact junk data :
+  length junk = NI_MAXHOST -> (1 <= length data <= 255)%nat -> wf_bytes data = true ->
+  mac_string junk data = Some (spec_mac data).
+Proof.
+  intros Hj Hl Hwf. destruct data as [|b rest]; [cbn [length] in Hl; lia|].
+  unfold mac_string, mac_writes. rewrite apply_writes_app.
+  pose proof (mac_from_apply rest b 0 [] junk eq_refl) as Hm. cbn [app] in Hm.
+  rewrite Hm by (rewrite Hj; unfold NI_MAXHOST; cbn [length] in Hl; lia). clear Hm.
+  rewrite mac_body_join. unfold apply_writes. cbn [fold_left fst snd].
+  set (txt := join [58] (map hexb (b :: rest))).
+  assert (Ht : length txt = (3 * length (b :: rest) - 1)%nat).
+  { pose proof (mac_body_length (b :: rest)) as H1. rewrite mac_body_join in H1. fold txt in H1.
+    rewrite app_length in H1. cbn [length] in *. lia. }
+  rewrite <- Ht, <- app_assoc. cbn [app]. rewrite upd_app_len.
+  assert (Hn : contains 0 txt = false).
+  { pose proof (mac_body_no_nul (b :: rest)) as H1. rewrite mac_body_join in H1. fold txt in H1.
+    rewrite contains_app in H1. now apply orb_false_iff in H1 as [H1 _]. }
+  rewrite c_str_app_nul by exact Hn. unfold txt, spec_mac. now rewrite map_hexb_wf.
+Qed.
+
+(* ---------------------------------------------------------------- net_if_addrs(): padding of short MACs *)
+Lemma count_byte_app b x y : count_byte b (x ++ y) = (count_byte b x + count_byte b y)%nat.
+Proof. unfold count_byte. now rewrite filter_app, app_length. Qed.
+
+Lemma mac_body_colons data : count_byte 58 (mac_body data) = length data.
+Proof.
+  induction data as [|b data IH]; [reflexivity|].
+  rewrite mac_body_cons. change (hexb b ++ 58 :: mac_body data) with (hexb b ++ [58] ++ mac_body data).
+  rewrite !count_byte_app, IH.
+  assert (H1 := hexb_clean b). unfold hexb in *. unfold count_byte. cbn [filter].
+  destruct (Z.eqb_spec 58 (hex_digit ((b mod 256) / 16))) as [E|_];
+    [specialize (H1 _ (or_introl eq_refl)); lia|].
+  destruct (Z.eqb_spec 58 (hex_digit ((b mod 256) mod 16))) as [E|_];
+    [specialize (H1 _ (or_intror (or_introl eq_refl))); lia|]. reflexivity.
+Qed.
+
+Lemma join_snoc sep : forall ts t, ts <> [] -> join sep (ts ++ [t]) = join sep ts ++ sep ++ t.
+Proof.
+  induction ts as [|x ts IH]; intros t H; [congruence|]. destruct ts as [|y ts].
+  - reflexivity.
+  - change ((x :: y :: ts) ++ [t]) with (x :: ((y :: ts) ++ [t])).
+    change (join sep (x :: (y :: ts) ++ [t])) with (x ++ sep ++ join sep ((y :: ts) ++ [t])).
+    rewrite IH by congruence. cbn [join]. now rewrite <- !app_assoc.
+Qed.
+
+Lemma pad_rounds_mac : forall k data, data <> [] ->
+  pad_rounds k (spec_mac data) = spec_mac (data ++ repeat 0 k).
+Proof.
+  induction k as [|k IH]; intros data H; cbn [pad_rounds repeat]; [now rewrite app_nil_r|].
+  replace (spec_mac data ++ [58; 48; 48]) with (spec_mac (data ++ [0])).
+  - rewrite IH by (destruct data; cbn [app]; discriminate). now rewrite <- app_assoc.
+  - unfold spec_mac. rewrite map_app. cbn [map]. rewrite join_snoc by (destruct data; [congruence|cbn [map]; discriminate]). reflexivity.
+Qed.
+
+(* a hardware address shorter than 6 bytes is completed with zero bytes; longer ones are left alone *)
+Lemma py_mac_pad_exact data : (1 <= length data)%nat -> wf_bytes data = true ->
+  py_mac_pad (spec_mac data) = spec_mac (data ++ repeat 0 (6 - length data)).
+Proof.
+  intros Hl Hwf. unfold py_mac_pad. destruct data as [|b rest]; [cbn [length] in Hl; lia|].
+  assert (Hc : count_byte 58 (spec_mac (b :: rest)) = length rest).
+  { pose proof (mac_body_colons (b :: rest)) as H1. rewrite mac_body_join, count_byte_app in H1.
+    unfold spec_mac. rewrite <- map_hexb_wf by exact Hwf. cbn [length] in H1.
+    change (count_byte 58 [58]) with 1%nat in H1. lia. }
+  rewrite Hc, pad_rounds_mac by discriminate. cbn [length]. do 2 f_equal.
 Qed.
 
 (* ================================================================ entry points *)
@@ -326,11 +592,6 @@ Lemma entry_legacy_refuted : c_entry_legacy EpIoprioSet [PInt 0; PInt (-1); PInt
 Proof. vm_compute. reflexivity. Qed.
 
 (* ================================================================ users() *)
-Lemma firstn_len_app {A} (f x : list A) : firstn (length f) (f ++ x) = f.
-Proof. induction f as [|a f IH]; cbn [length firstn app]; [destruct x; reflexivity|now rewrite IH]. Qed.
-Lemma skipn_len_app {A} (f x : list A) : skipn (length f) (f ++ x) = x.
-Proof. induction f as [|a f IH]; cbn [length skipn app]; auto. Qed.
-
 Lemma split_fields_concat : forall ws fs,
   Forall2 (fun w f => length f = w) ws fs -> split_fields ws (concat fs) = fs.
 Proof.
@@ -376,13 +637,6 @@ Proof.
   - destruct k; reflexivity.
   - rewrite contains_cons in H. apply orb_false_iff in H as [Hc Hs].
     cbn [app cut_nul]. rewrite Z.eqb_sym, Hc. now rewrite IH.
-Qed.
-
-Lemma c_str_app_nul s rest : contains 0 s = false -> c_str (s ++ 0 :: rest) = Some s.
-Proof.
-  induction s as [|c s IH]; intros H; [reflexivity|].
-  rewrite contains_cons in H. apply orb_false_iff in H as [Hc Hs].
-  cbn [app c_str]. rewrite Z.eqb_sym, Hc. now rewrite IH.
 Qed.
 
 Lemma str_ok_spec w s : str_ok w s = true -> (length s <= w)%nat /\ contains 0 s = false.
@@ -588,4 +842,14 @@ Proof.
   rewrite forallb_forall in E. assert (Ic : In c [0;1;2;3]) by (cbn; lia).
   specialize (E c Ic). rewrite forallb_forall in E. assert (Id : In d [0;1;2;3;4;5;6;7]) by (cbn; lia).
   apply Z.eqb_eq. exact (E d Id).
+Qed.
+
+Lemma strncpy_content src n junk : (1 <= n)%nat -> length junk = n ->
+  exists ws, psutil_strncpy src n = Some ws /\
+             apply_writes junk ws = pad n (firstn (n - 1) (cut_nul src)) /\
+             c_str (apply_writes junk ws) = Some (firstn (n - 1) (cut_nul src)).
+Proof.
+  intros Hn Hj. destruct (psutil_strncpy_defined src n Hn) as [ws Hws]. exists ws. split; [exact Hws|]. split.
+  - exact (psutil_strncpy_content src n ws junk Hws Hj).
+  - exact (psutil_strncpy_cstr src n ws junk Hws Hj).
 Qed.
